@@ -130,6 +130,10 @@ fn reader(o: &mut Vec<Op>, r: &mut Rng, abs: Word, post: bool, contracts: &[Cont
     let key = gen_read_key(r);
     let (n, room) = if r.chance(hostile) {
         (*r.pick(&[-1i64, 5120, 5121, 6000, 1 << 20, 1 << 40, i64::MAX - 1, i64::MAX]), 40)
+    } else if r.chance(0.03) {
+        // a long range: hundreds of consecutive keys, most of them mutated by nobody
+        let n = *r.pick(&[65i64, 255, 256, 257, 300, 513, 600]);
+        (n, n * 2 + 24)
     } else {
         let n = *r.pick(&[0i64, 1, 1, 2, 3, 4]);
         (n, n * 2 + n * 4 + 1)
@@ -182,6 +186,14 @@ fn producer(o: &mut Vec<Op>, r: &mut Rng) {
             5 => {
                 // second word of slot 0 if present, else a constant
                 o.extend([PUSH(0), DLEN, PUSH(r.range(0, 50)), ADD]);
+            }
+            6 => {
+                // a fork inside a loop: every child records the loop counter it sees (its parent's), then odd
+                // children leave - through a jump to ComputeEnd - while a loop of their own is still active
+                let n = *r.pick(&[3i64, 8, 40, 96]);
+                o.extend([PUSH(2), PUSH(1), REP, PUSH(n), COM]);
+                o.extend([REPC, PUSH(1), ALOC, STO, PUSH(1), BAND]);
+                o.extend([PUSH(3), PUSH(0), REP, DUP, PUSH(2), SWAP, JMPIF, REPE, COME, REPE]);
             }
             7 => {
                 // fork: every child records its index (and the word it inherited) in its memory
